@@ -81,7 +81,7 @@ class Msg:
         return [d[i:i + FM] for i in range(0, len(d), FM)]
 
     def unsafe(self):
-        """the trigger of the known sender defect: a frame after the first that is not contained in one caller buffer"""
+        """the trigger of the sender defect repaired by f9b160b: a frame after the first that is not contained in one caller buffer"""
         if self.total <= FM:
             return False
         off = 0
@@ -204,9 +204,9 @@ def gen_case(rng, i, tier):
         if rng.random() < 0.6:
             add("K%d;%s" % (1 - a, caps_str(rng, "K")))
         if kind == "tcp-multi-message":
-            ms = [rand_msg(rng, nxt(), big=(rng.random() < 0.3), safe=True) for _ in range(rng.randrange(2, 5))]
+            ms = [rand_msg(rng, nxt(), big=(rng.random() < 0.3)) for _ in range(rng.randrange(2, 5))]
         else:
-            ms = [rand_msg(rng, nxt(), safe=(True if rng.random() < 0.8 else None))]
+            ms = [rand_msg(rng, nxt(), safe=(True if rng.random() < 0.3 else None))]
         add("S%d;%s" % (a, "|".join(m.spec() for m in ms)), send=a, msgs=ms)
         if kind in ("tcp-ice-between", "tcp-ice-recv-messages") and rng.random() < 0.7:
             add("u%d;40000" % a)
@@ -282,9 +282,9 @@ def boundary_cases(rng, i0):
         if n >= 2:
             lays.append([1, n - 1]); lays.append([n - 1, 1]); lays.append([0, n, 0])
         if n > FM:
-            lays.append([FM, n - FM])                 # unsafe: split exactly at the boundary
-            lays.append([FM - 1, n - FM + 1])         # safe: second frame inside buffer 2
-            lays.append([FM + 1, n - FM - 1] if n - FM - 1 > 0 else [FM - 5, n - FM + 5])   # unsafe when the rest spills over
+            lays.append([FM, n - FM])                 # split exactly at the boundary (over-read before f9b160b)
+            lays.append([FM - 1, n - FM + 1])         # second frame inside buffer 2
+            lays.append([FM + 1, n - FM - 1] if n - FM - 1 > 0 else [FM - 5, n - FM + 5])   # the rest spills over into the next buffer
             lays.append([10, FM - 11, 1, n - FM])     # cut just before and at the boundary
     sd = 7
     for sizes in lays:
@@ -369,8 +369,8 @@ def oracle(line, out, meta):
             if overread:
                 m_bad = [m for m in sm["msgs"] if m.unsafe()]
                 if m_bad:
-                    return D1_WHY + ": " + overread + " layout " + m_bad[0].spec(), "sender-overread-split-across-buffers", None
-                return "the socket layer was handed a vector that runs past the end of a caller buffer (%s) for a layout that is not the known trigger: %s" % (overread, sm["op"]), None, None
+                    return D1_WHY + ": " + overread + " layout " + m_bad[0].spec(), None, None
+                return "the socket layer was handed a vector that runs past the end of a caller buffer (%s): %s" % (overread, sm["op"]), None, None
             # frames of the accepted messages must be exactly the RFC 4571 frames
             exp_frames = []
             for m in sm["msgs"][:nacc]:
@@ -713,34 +713,25 @@ def agent_srcs():
 WRAP = ["-Wl,--wrap=component_io_cb", "-Wl,--wrap=nice_socket_send_messages", "-Wl,--wrap=nice_socket_send_messages_reliable", "-ldl"]
 
 
-def build_impl(align=False):
-    """align=False: the working harness (UBSan's alignment check off: see the misaligned-load finding);
-    align=True: the same harness over the standard sanitizer objects, used only to probe that finding"""
-    if align:
-        objs, l = vlib.repo_objects(agent_srcs())
-        name = "data_h_align"
-    else:
-        objs, l = vlib.repo_objects(agent_srcs(), variant="c02", extra=["-fno-sanitize=alignment"])
-        name = "data_h"
+def build_impl():
+    """the harness over the standard sanitizer objects (ASan + UBSan incl. the alignment check)"""
+    objs, l = vlib.repo_objects(agent_srcs())
     if not objs:
         return None, l
-    return vlib.link(name, ["data_h.c"], objs, extra=WRAP + ([] if align else ["-fno-sanitize=alignment"]))
+    return vlib.link("data_h", ["data_h.c"], objs, extra=WRAP)
 
 
 def prebuild():
     s, o = sc.build_sim()
     if not s:
         return o
-    for al in (False, True):
-        e, o = build_impl(al)
-        if not e:
-            return o
-    return None
+    e, o = build_impl()
+    return None if e else o
 
 
 # ------------------------------------------------------------------ the TCP part
 def tcp_part(chk):
-    impl, o = build_impl(False)
+    impl, o = build_impl()
     if not impl:
         chk.broken_obligation("impl-build-data_h", o[-3000:]); return
     rng = chk.rng
@@ -760,7 +751,7 @@ def tcp_part(chk):
     send_items, cb_items, rm_items = [], [], []
     n_notready = 0
     ntie_cases = 0
-    tie_budget = 60 if chk.tier == "quick" else 1500
+    tie_budget = 45 if chk.tier == "quick" else 1500
     for k, (line, kind, meta) in enumerate(cases):
         out = outs[k]
         chk.count_case(line, out is not None and (" d" in out or " g1" in out or " g2" in out or " g3" in out), kind)
@@ -779,12 +770,6 @@ def tcp_part(chk):
             if nviol <= 40:
                 chk.violation({"kind": "oracle", "what": "tcp-C02", "trigger": trigger or "none", "case": line, "impl": out[:4000], "why": why},
                               "tcp-C02: property oracle failed on the implementation: %s\n case: %s" % (why, line[:400]))
-            # the over-read is also a statement about the model: Fault expected
-            if trigger == "sender-overread-split-across-buffers":
-                sm = [m for m in meta["ops"] if "send" in m and any(x.unsafe() for x in m["msgs"])]
-                if sm and len(sm[0]["msgs"]) == 1 and ntie_cases < tie_budget + 30:
-                    m = sm[0]["msgs"][0]
-                    send_items.append("([cut %s (%s)], [], None)" % (coq_zl(m.sizes), coq_bytes_expr(m)))
             # the leak of a cached control frame is what the model predicts: tie it
             if trigger == "ice-control-leak-recv-messages-cache" and info is not None:
                 for b in (0, 1):
@@ -796,9 +781,10 @@ def tcp_part(chk):
             continue
         # tie: boundary cases always, random ones within the budget, big scripts skipped
         total_bytes = sum(sum(m.total for m in s["msgs"]) for s in info["sends"])
-        if kind != "tcp-boundary" and (ntie_cases >= tie_budget or total_bytes > 400000):
-            continue
-        ntie_cases += 1
+        if kind != "tcp-boundary":
+            if ntie_cases >= tie_budget or total_bytes > 400000:
+                continue
+            ntie_cases += 1
         si, _ = tie_items(meta, info)
         send_items += si
         for b in (0, 1):
@@ -814,38 +800,34 @@ def tcp_part(chk):
     run_tie(chk, send_items, cb_items, "tcp-C02", rm_items)
 
 
-def align_probe(chk):
-    """the misaligned 16-bit load of the RFC 4571 length field: two frames, the first of odd length, in one read"""
-    impl, o = build_impl(True)
-    if not impl:
-        chk.broken_obligation("impl-build-data_h_align", o[-3000:]); return
-    line = "a0 r0b0k0s5 S0;5;g1 S0;6;g2 P\n"
-    rc, so, se = vlib.run_lines(impl, line, timeout=120)
-    chk.count_case(line, True, "tcp-alignment-probe")
-    if rc != 0 or "runtime error" in se:
-        m = re.search(r"(agent/)?agent\.c:(\d+):\d+: runtime error: load of misaligned address", se)
-        if m:
-            chk.violation({"kind": "ubsan-alignment", "what": "tcp-C02", "trigger": "rfc4571-length-misaligned-load", "case": line.strip(), "stderr": se[-1500:]},
-                          "tcp-C02: UBSan: the RFC 4571 length field is read through a misaligned guint16 pointer (agent.c:%s)" % m.group(2))
-        else:
-            chk.violation({"kind": "impl-crash", "what": "tcp-C02-align", "case": line.strip(), "rc": rc, "stderr": se[-3000:]},
-                          "tcp-C02 (alignment build): crash or sanitizer report rc=%s\n%s" % (rc, se[-1500:]))
+ZERO_CAP_CASES = [
+    "z0 r1b1k0s3 C1;0 S0;5;g1 P G1;0.0 G1;9 G1;9 P",                 # zero-length buffers only, one frame pending
+    "z4 r1b1k0s3 C1;0 S0;5;g1 S0;5;g2 P G1;5.0 G1;7 G1;7 P",          # a layout ending in a zero-length buffer, two frames pending
+    "z5 r1b1k0s4 C1;0 S0;3.4;g7 S0;6;g8 P G1;0 G1;2.0.0 G1;70000 G1;70000 P",
+]
 
 
 def spin_probe(chk):
-    """bytestream-tcp: nice_agent_recv_messages with a message of zero total capacity while a frame is pending"""
-    impl, o = build_impl(False)
+    """bytestream-tcp: nice_agent_recv_messages whose remaining buffers have zero total size while a frame is pending must
+    return (would block / what it has), and the data must still arrive afterwards (regression of fix 163ebb1: it used to spin)"""
+    impl, o = build_impl()
     if not impl:
         return
-    line = "z0 r1b1k0s3 C1;0 S0;5;g1 P G1;0.0 P\n"
-    rc, so, se = vlib.run_lines(impl, line, timeout=4)
-    chk.count_case(line, True, "tcp-zero-capacity-probe")
-    if rc == 124:
-        chk.violation({"kind": "hang", "what": "tcp-C02", "trigger": "bytestream-zero-capacity-spin", "case": line.strip()},
-                      "tcp-C02: nice_agent_recv_messages_nonblocking does not return (4 s): bytestream-tcp, receive buffers of zero total size, a frame pending")
-    elif rc != 0:
-        chk.violation({"kind": "impl-crash", "what": "tcp-C02-spin", "case": line.strip(), "rc": rc, "stderr": se[-3000:]},
-                      "tcp-C02 (zero-capacity probe): crash or sanitizer report rc=%s\n%s" % (rc, se[-1500:]))
+    for line in ZERO_CAP_CASES:
+        rc, so, se = vlib.run_lines(impl, line + "\n", timeout=5)
+        chk.count_case(line, True, "tcp-zero-capacity")
+        if rc == 124:
+            chk.violation({"kind": "hang", "what": "tcp-C02", "trigger": "bytestream-zero-capacity-spin", "case": line},
+                          "tcp-C02: nice_agent_recv_messages_nonblocking does not return (5 s): bytestream-tcp, remaining receive buffers of zero "
+                          "total size, a frame pending\n case: " + line)
+        elif rc != 0:
+            chk.violation({"kind": "impl-crash", "what": "tcp-C02-zero-capacity", "case": line, "rc": rc, "stderr": se[-3000:]},
+                          "tcp-C02 (zero-capacity case): crash or sanitizer report rc=%s\n%s" % (rc, se[-1500:]))
+        else:
+            why, trigger, _ = oracle(line, so.strip("\n"), meta_from_line(line))
+            if why:
+                chk.violation({"kind": "oracle", "what": "tcp-C02", "trigger": trigger or "none", "case": line, "impl": so[:2000], "why": why},
+                              "tcp-C02: property oracle failed on the implementation: %s\n case: %s" % (why, line))
 
 
 PTCP_WHY = ("reliable mode (pseudo-TCP over UDP): the received stream is corrupted after data segments overtook the peer's lost connect segment "
@@ -882,7 +864,6 @@ def sim_oracle(line, evs, meta):
 def run(chk):
     chk.prove(["Props/Properties_C02.v"])
     tcp_part(chk)
-    align_probe(chk)
     spin_probe(chk)
     n = 200 if chk.tier == "quick" else 12000
     cases = [sc.gen_data(chk.rng, i) for i in range(n)] + PTCP_CORPUS
@@ -927,7 +908,7 @@ def replay(chk, path):
     if rp.get("what", "").startswith("sim") or case.startswith("data"):
         import C11
         return C11.replay(chk, path)
-    impl, o = build_impl(rp.get("kind") == "ubsan-alignment")
+    impl, o = build_impl()
     if not impl:
         print(o); return 1
     rc, so, se = vlib.run_lines(impl, case + "\n", timeout=60)
